@@ -86,9 +86,11 @@ def run(ctx, part):
         # sanitizers are the only oracle here: value disagreements belong to the other property's own check
         ctx.fail = lambda key, detail=None: None
         real_n = ctx.n
-        ctx.n = lambda q, t=None: max(1, real_n(q, t) // (12 if ctx.quick else 4))
+        ctx.n = lambda q, t=None: max(1, real_n(q, t) // (4 if ctx.quick else 2))
         ctx.default_budget = 300
         ctx.sampler = True
+        ctx.sample_every = 12 if ctx.quick else 3
+        ctx.sample_phase = (ctx.seed + ctx.shard) % ctx.sample_every
         mod.run(ctx, sub)
         ctx.evaluations = max(ctx.evaluations, ctx.cases)
 
